@@ -13,7 +13,7 @@ def run(tier, seed):
     chk.rule = ("tag-structure modules (EXPLICIT/IMPLICIT/AUTOMATIC, manual tags, reference chains, untagged CHOICEs nested in CHOICE/SET/SEQUENCE "
                 "optional runs) that the independent X.680 model (vf/checks/c11faults.py:problems) calls unambiguous, and every single-edit mutant of "
                 "each (retag onto a sibling's tag, remove a tag, swap in a sibling's type, make a member OPTIONAL, duplicate an identifier, duplicate an "
-                "enumeration name/value, dangling reference); asn1c (ASan build) must exit 0 iff the model finds no problem, and on rejection print a "
+                "enumeration name/value, dangling reference), plus a catalogue of identifiers / enumeration items repeated on either side of an extension marker; asn1c (ASan build) must exit 0 iff the model finds no problem, and on rejection print a "
                 "diagnostic and write no file; plus the project's own verdicts: every shipped compiler-test file marked -SE must be rejected likewise, every file "
                 "marked -OK must pass asn1c -E -F; distinct = distinct module texts")
     chk.assumptions = ["SEQUENCE cases carry no extension additions (the statement speaks of root components)",
@@ -45,6 +45,16 @@ def run(tier, seed):
             pr = c11faults.problems(m)
         except Exception as e:
             chk.inconcl("model error on catalogue module: %s" % type(e).__name__)
+            continue
+        jobs.append((fam, m.text(), pr, m.tagdefault))
+    mk = list(c11faults.marker_catalogue())
+    if quick:
+        mk = rng.sample(mk, 60)
+    for fam, m in mk:
+        try:
+            pr = c11faults.problems(m)
+        except Exception as e:
+            chk.inconcl("model error on marker module: %s" % type(e).__name__)
             continue
         jobs.append((fam, m.text(), pr, m.tagdefault))
     # the project's own verdicts: compiler-test files marked -SE (semantic error) must be rejected by a full compilation,
